@@ -24,3 +24,6 @@ func (v *VerifDest) Known() []*Path                      { return v.d.GetAllKnow
 func (v *VerifDest) Best() *Path                         { return v.d.GetBestPath(GLOBAL_RIB_NAME, 0) }
 func (v *VerifDest) Multi() []*Path                      { return v.d.GetMultiBestPath(GLOBAL_RIB_NAME) }
 func (p *Path) VerifLocalID() uint32                     { return p.localID }
+
+// VerifSetLocalID sets the local path identifier (normally assigned by destination.Calculate).
+func (p *Path) VerifSetLocalID(id uint32) { p.localID = id }
